@@ -927,28 +927,45 @@ where
     T: Hash + Eq,
     str: Equivalent<T>,
 {
-    let (from, replaced) = set.replace_full(rule);
+    // Resolve and check the anchors first, so that an error leaves the set unchanged.
+    let after_idx = after
+        .map(|rule_id| set.get_index_of(rule_id).ok_or(InsertPushRuleError::UnknownRuleId))
+        .transpose()?;
+    let before_idx = before
+        .map(|rule_id| set.get_index_of(rule_id).ok_or(InsertPushRuleError::UnknownRuleId))
+        .transpose()?;
 
-    let mut to = default_position;
-
-    if let Some(rule_id) = after {
-        let idx = set.get_index_of(rule_id).ok_or(InsertPushRuleError::UnknownRuleId)?;
-        to = idx + 1;
-    }
-    if let Some(rule_id) = before {
-        let idx = set.get_index_of(rule_id).ok_or(InsertPushRuleError::UnknownRuleId)?;
-
-        if idx < to {
+    if let (Some(after_idx), Some(before_idx)) = (after_idx, before_idx) {
+        if before_idx <= after_idx {
             return Err(InsertPushRuleError::BeforeHigherThanAfter);
         }
-
-        to = idx;
     }
 
-    // Only move the item if it's new or if it was positioned.
-    if replaced.is_none() || after.is_some() || before.is_some() {
-        set.move_index(from, to);
-    }
+    // A new rule is appended, so the indices of the anchors are still valid.
+    let (from, replaced) = set.replace_full(rule);
+
+    // The final index of the rule. Rules between `from` and the anchor shift by one when the rule
+    // is moved, so the target depends on which side of the anchor the rule comes from.
+    let to = if let Some(idx) = before_idx {
+        if from < idx {
+            idx - 1
+        } else {
+            idx
+        }
+    } else if let Some(idx) = after_idx {
+        if from <= idx {
+            idx
+        } else {
+            idx + 1
+        }
+    } else if replaced.is_none() {
+        default_position.min(set.len() - 1)
+    } else {
+        // Only move the item if it's new or if it was positioned.
+        from
+    };
+
+    set.move_index(from, to);
 
     Ok(())
 }
